@@ -107,6 +107,8 @@ IsSort == IF flat.on \/ expr.t # "vecagg" THEN FALSE ELSE expr.op \in {"sort", "
 \* sort / sort_desc: an instant vector lists its samples in value order
 \* (IF, not \/: TLC evaluates the disjuncts of an action independently, and the last one is partial)
 SortOk == IF ~IsSort \/ Cardinality(grid) # 1 \/ lastV = <<>> \/ Ev.val.t # "rat" THEN TRUE
+          \* (projections of irrational values have large terms: their order is not compared exactly)
+          ELSE IF ~SmallR([n |-> Ev.val.n, d |-> Ev.val.d]) \/ ~SmallR(lastV[1]) THEN TRUE
           ELSE IF expr.op = "sort" THEN ~RLt([n |-> Ev.val.n, d |-> Ev.val.d], lastV[1]) ELSE ~RLt(lastV[1], [n |-> Ev.val.n, d |-> Ev.val.d])
 PointOk == ~returned /\ Ev.t[2] = 0 /\ Ev.t[1] \in grid /\ (open \/ (FitsAt(Ev.t[1], Ev) # {} /\ SortOk))
 EvPoint == IsEv("Point") /\ PointOk /\ Accept
